@@ -172,7 +172,8 @@ def run():
             ('ObserveOn', 'NItems = 2\n Ending = "e"\n WithUnsub = FALSE\n ErrorDirect = TRUE\n Feedback = FALSE\n InlineFromWorker = FALSE', 'INVARIANTS OrderOK OnWorker', 'O'),
             ('ObserveOn', 'NItems = 2\n Ending = "c"\n WithUnsub = FALSE\n ErrorDirect = FALSE\n Feedback = TRUE\n InlineFromWorker = TRUE', 'INVARIANTS NeverNested', 'NeverNested'),
             ('SubscribeOn', 'NItems = 2\n Completes = FALSE\n WithUnsub = TRUE\n HookInJob = TRUE', 'PROPERTY WorkerExits', 'WorkerExits'),
-            ('Debounce', 'D = 100\n Gaps = {40, 260}\n MaxEvents = 3\n ReadNotTake = TRUE', 'INVARIANTS InOrderNoneTwice', 'InOrderNoneTwice'),
+            ('Debounce', 'D = 100\n Gaps = {40, 260}\n MaxEvents = 3\n ReadNotTake = TRUE\n Feedback = FALSE\n HoldLockWhileDelivering = FALSE', 'INVARIANTS InOrderNoneTwice', 'InOrderNoneTwice'),
+            ('Debounce', 'D = 100\n Gaps = {40, 260}\n MaxEvents = 2\n ReadNotTake = FALSE\n Feedback = TRUE\n HoldLockWhileDelivering = TRUE', 'INVARIANTS NeverStuck', 'NeverStuck'),
             ('SampleConc', 'NItems = 2\n NTicks = 2\n Completes = TRUE\n ReadNotTake = TRUE\n TwoStepTake = FALSE', 'INVARIANTS InOrderNoneTwice', 'InOrderNoneTwice'),
             ('SampleConc', 'NItems = 2\n NTicks = 2\n Completes = TRUE\n ReadNotTake = FALSE\n TwoStepTake = TRUE', 'INVARIANTS FreshIsInSlot', 'FreshIsInSlot'),
             ('TimedSources', 'Kind = "interval"\n D = 100\n UGrid = {55, 175, 250}\n Horizon = 450\n Gaps = {40, 90, 260}\n MaxEvents = 2\n EmitThenSleep = TRUE\n NoPoll = FALSE', 'INVARIANTS IntervalExact', 'IntervalExact'),
